@@ -230,6 +230,7 @@ type File struct {
 	fname string
 	imps  map[string]*ast.Ident // importPath => impRef (nil means force-import)
 	dirty bool
+	force map[string]struct{} // importPath set by forceImport (survives a later reference to the package)
 }
 
 func newFile(fname string) *File {
@@ -247,6 +248,13 @@ func (p *File) newImport(name, pkgPath string) *ast.Ident {
 }
 
 func (p *File) forceImport(pkgPath string) {
+	if p.force == nil {
+		p.force = make(map[string]struct{})
+	}
+	if _, ok := p.force[pkgPath]; !ok {
+		p.force[pkgPath] = struct{}{}
+		p.dirty = true
+	}
 	if _, ok := p.imps[pkgPath]; !ok {
 		p.imps[pkgPath] = nil
 		p.dirty = true
@@ -311,6 +319,11 @@ func (p *File) getDecls(this *Package) (decls []ast.Decl) {
 			}
 			specs = append(specs, &ast.ImportSpec{
 				Name: name,
+				Path: astStringLit(pkgPath),
+			})
+		} else if _, ok := p.force[pkgPath]; ok { // referenced later, but every reference was discarded
+			specs = append(specs, &ast.ImportSpec{
+				Name: underscore, // _
 				Path: astStringLit(pkgPath),
 			})
 		}
